@@ -34,7 +34,7 @@ func checkC14(c *Ctx) int {
 	if c.thorough() {
 		layouts = append(layouts, layout{"small7/D", []uint64{3, 3, 3, 3, 0, 3, 3}, 2})
 	}
-	var states, trans, edges, levelReads, restarts int64
+	var states, trans, edges, levelReads, restarts, scaleReads int64
 	for _, lo := range layouts {
 		lmWithSplit = lo.name == "small7/S"
 		gr, s, t := lmExplore(c, g, lo.initSV, lo.ops, lo.ops, l1, l2, !lmWithSplit)
@@ -58,7 +58,7 @@ func checkC14(c *Ctx) int {
 					}
 				}()
 				w := &lmWorker{c: c, run: run, run12: ev.NewRun("C12", c.Tier, "model_checking"), gr: gr, g: g, initSV: lo.initSV, gname: lo.name, w: wi, nw: nw,
-					cfg: map[string]string{"MaxDownresLevel": "2"}, edges: &edges, restarts: &restarts}
+					cfg: map[string]string{"MaxDownresLevel": "2"}, edges: &edges, restarts: &restarts, noExt: true}
 				w.afterEdge = func(w *lmWorker, uuid string, e lmEdge, lab *lmm.Labels) {
 					d, err := w.in.CompareLevels(uuid, e.Obs, lab, l1, l2)
 					must(err, "compare levels")
@@ -73,6 +73,17 @@ func checkC14(c *Ctx) int {
 							kind = "idle-reported-before-levels-were-stored"
 						}
 						run.Violation("c14", c08Divergence{Kind: kind, Geometry: w.gname, InitSV: w.initSV, Path: w.gr.pathTo(e.T.Canon()), Op: e.L, Diffs: d, Labels: lab.ToReal})
+						return
+					}
+					// the same stored levels through the other endpoints (blocks, specificblocks, label(s), sparsevol with scale=)
+					d, n, err := w.in.CompareLevelReads(uuid, e.Obs, lab, l1, l2)
+					must(err, "compare level reads")
+					atomic.AddInt64(&scaleReads, int64(n))
+					if len(d) > 0 {
+						if len(d) > 12 {
+							d = d[:12]
+						}
+						run.Violation("c14", c08Divergence{Kind: "lower-resolution-level-differs-through-another-endpoint", Geometry: w.gname, InitSV: w.initSV, Path: w.gr.pathTo(e.T.Canon()), Op: e.L, Diffs: d, Labels: lab.ToReal})
 					}
 				}
 				root, lab := w.start()
@@ -91,7 +102,9 @@ func checkC14(c *Ctx) int {
 	run.Set("transitions", trans)
 	run.Set("traces_validated_against_impl", edges)
 	run.Set("level_volumes_compared", levelReads)
-	run.Set("rule", "case = one transition of the Labelmap.tla state graph (merge, cleave, split-supervoxel, renumber, mutating voxel write of a region, body split, index / mapping re-ingest; ingestion through POST raw and POST blocks?downres=true) on a labelmap instance with MaxDownresLevel=2; after the transition and the instance's own idle predicate, the stored level-1 and level-2 volumes (supervoxels and mapped) are read in full and every voxel is compared with the vote TLC evaluates for its class (classes = distinct multisets of the 8 regions / level-1 classes beneath a voxel, computed by brute force from the shared geometry)")
+	run.Set("level_reads_through_other_endpoints", scaleReads)
+	run.Set("level_reads_by_option_combination", lmm.TakeStats())
+	run.Set("rule", "case = one transition of the Labelmap.tla state graph (merge, cleave, split-supervoxel, renumber, mutating voxel write of a region, body split, index / mapping re-ingest; ingestion through POST raw and POST blocks?downres=true) on a labelmap instance with MaxDownresLevel=2; after the transition and the instance's own idle predicate, the stored level-1 and level-2 volumes (supervoxels and mapped) are read in full through GET raw?scale= and, with rotating options, through GET blocks?scale= / specificblocks?scale= (every compression), label / labels?scale= and sparsevol?scale= (rles, srles, blocks; body and supervoxel), and every voxel is compared with the vote TLC evaluates for its class (classes = distinct multisets of the 8 regions / level-1 classes beneath a voxel, computed by brute force from the shared geometry)")
 	run.Assume = []string{"2x2x2 voting on cubic 32^3 blocks; 4 level-0 blocks incl. a negative block coordinate, parents with 1 and 3 present octants", "labels compared modulo an order-preserving bijection bound from responses"}
 	fmt.Printf("C14: tlc %d states; %d transitions replayed, %d level volumes compared (%d/%d classes) in %.1fs; violations=%d\n",
 		states, edges, levelReads, len(l1.Classes), len(l2.Classes), since(t0), run.Violations())
